@@ -130,31 +130,15 @@ func (b *Bus) EaWrite(a uint32, value byte) {
 }
 
 func (b *Bus) EaDump(start uint32, end uint32, data []byte) int {
-	// determine start and end segments:
-	startK := (start & 0xff_fff0) >> 4
-	endK := (end & 0xff_fff0) >> 4
-
-	a := start
 	i := 0
 
-	// move segment by segment:
-	for k := startK; k <= endK; k++ {
-		s := b.segment[k]
-		if s == nil {
-			// skip the whole segment:
-			for n := 0; a <= end && n < 16; n++ {
-				a++
-				i++
-			}
-			continue
-		}
-
-		// copy the whole segment:
-		for n := 0; a <= end && n < 16; n++ {
+	// move byte by byte; the segment responsible for an address is found from
+	// that very address, so an unaligned start cannot shift the lookup:
+	for a := start; a <= end; a++ {
+		if s := b.segment[a>>4]; s != nil {
 			data[i] = s.Read(a)
-			a++
-			i++
 		}
+		i++
 	}
 
 	return i
